@@ -96,7 +96,7 @@ def observe(root, env, variants=()):
     ev = {"nodes": [], "root": ids.id(root), "rootu": ids.id(std_unwrap(root)), "members": {"-": []}, "salias": [],
           "equiv": [], "raised": ""}
     try:
-        seq = list(with_deadline(10, graph.static_order, root))
+        seq = list(with_deadline(2, graph.static_order, root))
     except Deadline:
         ev["raised"] = "NonTermination"
         return ev
@@ -131,7 +131,9 @@ def observe(root, env, variants=()):
                     den = "unresolvable"
             if isinstance(t, typing.TypeAliasType) and isinstance(t.__value__, str) and ids.id(t) not in ev["salias"]:
                 ev["salias"].append(ids.id(t))
+            su = std_unwrap(t)
             out.append({"t": ids.id(t), "u": note_members(u) if not isinstance(u, typing.ForwardRef) else ids.id(u),
+                        "su": note_members(su) if not isinstance(su, (typing.ForwardRef, typing.TypeAliasType)) else ids.id(su),
                         "var": n.var or "", "cyc": bool(n.cyclic), "ref": isinstance(t, typing.ForwardRef),
                         "uref": isinstance(u, typing.ForwardRef), "den": den})
         return out
@@ -139,7 +141,7 @@ def observe(root, env, variants=()):
     body = [(n["t"], n["u"], n["var"], n["cyc"]) for n in ev["nodes"][:-1]]
     for name, alt in variants:
         try:
-            s2 = proj(list(with_deadline(10, graph.static_order, alt)))
+            s2 = proj(list(with_deadline(2, graph.static_order, alt)))
             same = [(n["t"], n["u"], n["var"], n["cyc"]) for n in s2[:-1]] == body and bool(s2) and s2[-1]["u"] in (ev["nodes"][-1]["u"], ev["rootu"])
         except Exception as e:
             same = False
